@@ -9,7 +9,10 @@
 //     Caching) runs generated actions against in-memory CAS/AC fakes; a clean
 //     run counts the storage calls N, then the action is re-run with a fault
 //     at every position k <= N, for every fault kind and batch size;
-//  2. batching layer sub-harness (batch_test.go): random Put/flush sequences
+//  2. decorator harness (decorator_test.go): Caching(StorageFlushing(scripted
+//     base)) over the product of request shapes (no Action, malformed action
+//     digests), base outcomes, flush outcomes and storage faults;
+//  3. batching layer sub-harness (batch_test.go): random Put/flush sequences
 //     against NewBatchedStoreBlobAccess with reader-backed buffers whose
 //     Close calls are counted.
 package c09
@@ -681,6 +684,7 @@ func TestCheck(t *testing.T) {
 		return
 	}
 
+	runDecoratorHarness(r)
 	runBatchHarness(r)
 
 	nActions := r.Pick(18, 400)
